@@ -308,7 +308,7 @@ func c08GdefLimits(r *run.Run) {
 	}
 	counts = append(counts, 40000, 65535)
 	r.Explore(explore.Config{Name: "C08.gdef-limits"},
-		"gdef.Table with glyph class / mark attachment class tables of n alternating classes, n in {1, 1000, 32740, every value 32748..32770 (the following part starts at offset 0x10000 +- 20), 40000, 65535}, the large table in either position, with and without mark glyph sets: Read(Encode(x)) == x or the encoder refuses loudly",
+		"gdef.Table with glyph class / mark attachment class tables of n alternating classes, n in {1, 1000, 32740, every value 32748..32770 (the following part starts at offset 0x10000 +- 20), 40000, 65535}, the large table in either position, with no / 1 / 3 / an empty list of mark glyph sets: Read(Encode(x)) == x or the encoder refuses loudly",
 		func(c *explore.Ctx) {
 			n := counts[c.Choose(len(counts), "entries of the large class table")]
 			where := c.Choose(3, "large table")
@@ -324,12 +324,15 @@ func c08GdefLimits(r *run.Run) {
 				t.GlyphClass = alternating(n/2, 1, 3)
 				t.MarkAttachClass = alternating(n-n/2, 2, 1)
 			}
-			sets := c.Choose(3, "mark glyph sets")
-			if sets >= 1 {
+			sets := c.Choose(4, "mark glyph sets")
+			if sets == 1 || sets == 2 {
 				t.MarkGlyphSets = []coverage.Set{{2: true, 6: true}}
 			}
 			if sets == 2 {
 				t.MarkGlyphSets = append(t.MarkGlyphSets, coverage.Set{}, coverage.Set{4: true})
+			}
+			if sets == 3 {
+				t.MarkGlyphSets = []coverage.Set{} // present but empty (what Read returns for a count of 0): still a version 1.2 table
 			}
 			desc := fmt.Sprintf("%d alternating classes, large table %d, %d mark glyph sets", n, where, len(t.MarkGlyphSets))
 			c.Sample(func() any { return desc })
